@@ -8,16 +8,16 @@ any depth,
 * both are leaf / leaf-list nodes — every accepted cell of the 4 × 4 table, except that in the cell `none` + `replace` (a leaf
   whose default flag was changed by the first diff gets another value in the second one) the new value must not carry the
   default flag (`merge_apply_dfltvalue_fails`: not reachable from validated data); or
-* both are container / list-instance nodes with the operations (`meetOps`) `none` + `none` (the instance exists in all three
-  trees), `none` + `delete` (changed inside by the first diff, deleted as a whole by the second), `create` + `delete` (created
-  by the first diff, deleted again by the second: nothing is left) or `create` + `none` (created by the first diff, changed
-  inside by the second), the key copies of the target node belong to schema nodes before the children of the source node
-  (schema order: true of every computed diff), and their children meet in the same way — the children of a created / deleted
-  subtree carry no operation of their own: it is INHERITED (`lyd_diff_merge_delete` makes the operations of the target node's
-  children explicit first; the copies inside a created subtree keep inheriting `create`).
-Excluded (evaluated on the implementation only): `delete` + `create` of an inner node — "delete-then-recreate", the cell of
-finding F18 when the descendants differ; the four other cells of the table for inner nodes are rejected by the C and cannot be
-reached by two exact diffs (`merge_rejected_unreachable`).
+* both are container / list-instance nodes, in any of the five cells of the table the C accepts for inner nodes (`meetOps`):
+  `none` + `none` (the instance exists in all three trees), `none` + `delete` (changed inside by the first diff, deleted as a
+  whole by the second), `create` + `delete` (created, then deleted: nothing is left), `create` + `none` (created, then changed
+  inside), `delete` + `create` (deleted, then created again, with the same or with other descendants — for that cell the key
+  leaves of the two copies must agree in their default flags too, which `lyd_compare_single` does not look at; list keys never
+  carry the flag); the key copies of the target node belong to schema nodes before the children of the source node (schema
+  order: true of every computed diff); and their children meet in the same way — the children of a created / deleted subtree
+  carry no operation of their own: it is INHERITED (`lyd_diff_merge_delete` / `lyd_diff_merge_create` make the operations of
+  the target node's children explicit first; the copies inside a created subtree keep inheriting `create`).
+So `mergeSafe` excludes one thing only: the default-flagged second value in `none` + `replace` (and malformed key copies).
 Core Lean only (the driver evaluates the predicate for every generated triple).
 -/
 namespace LyModel.Diff
@@ -25,13 +25,14 @@ open LyModel LyModel.Tree
 
 /-- the operations of two inner nodes that may meet: `none` + `none` (the instance is in all three trees), `none` + `delete` (changed
 inside by the first diff, deleted by the second), `create` + `delete` (created by the first diff, deleted by the second),
-`create` + `none` (created by the first diff, changed inside by the second) — every accepted cell of the table for inner nodes
-except `delete` + `create` -/
+`create` + `none` (created by the first diff, changed inside by the second), `delete` + `create` (deleted by the first diff, created
+again by the second, with whatever descendants) — every accepted cell of the table for inner nodes -/
 def meetOps : Option Op → Option Op → Bool
   | some .none, some .none => true
   | some .none, some .delete => true
   | some .create, some .delete => true
   | some .create, some .none => true
+  | some .delete, some .create => true
   | _, _ => false
 
 mutual
@@ -41,6 +42,7 @@ def safeP (S : Schema) (cur sin : Option Op) (t : DNode) : DNode → Bool
     t.isTerm && !(effOp t cur == some .none && effOp (.term s f m v) sin == some .replace && f.dflt)
   | .inner s f m ks =>
     !t.isTerm && meetOps (effOp t cur) (effOp (.inner s f m ks) sin) &&
+      (!(effOp t cur == some .delete) || dataEqL true (keysOf S t.kids) (keysOf S ks)) &&
       (keysOf S t.kids).all (fun k => (noKeys S ks).all fun c => decide (k.sid < c.sid)) &&
       safeK S (childInhOf t cur) (childInhOf (.inner s f m ks) sin) (noKeys S t.kids) ks
 /-- every node of the source sibling list `cs` against every node of the target sibling list `T` it meets -/
